@@ -364,7 +364,11 @@ CLAIMED = {
              "of apply_renames replaces exactly the listed tokens (apply_renames_spec). Oracle: `garden run` before/after, an "
              "independent Python resolver, LSP rename edits vs the CLI.",
         note=TB + "RefSem is a reference semantics (closures capture by value, as eval.rs does), compared with the real evaluator's "
-             "output and outcome kind on every generated program. No known findings.",
+             "output and outcome kind on every generated program. Recorded model limit (found by the first thorough sweep): "
+             "RefSem evaluates the items of an argument list / list literal left to right, eval.rs evaluates them last-first; "
+             "a program in which two items of one list both print shows the same lines in another order, which the "
+             "comparison accepts (same outcome, same multiset of lines) and counts in the evidence. The theorems of C19-C22 "
+             "are about RefSem with its order; the evaluator model M4 (C02-C11, C25-C27) follows eval.rs's order. No known findings.",
         design="§7 C19"),
     "C22": dict(
         category="translation_validation",
